@@ -226,7 +226,8 @@ SwapRows(a, r1, r2) ==
                           THEN (IF in1 THEN a.data[((r1 - j) + a.mu) * n + j + 1] ELSE 0)
                           ELSE a.data[x]]]]
 
-Fill(a, v) == [a EXCEPT !.data = [x \in DOMAIN a.data |-> v]]
+\* fill: Identity storage is left as it is (its two backing cells [1, 0] are not entries); otherwise the WHOLE buffer is set
+Fill(a, v) == IF a.kind = "I" THEN a ELSE [a EXCEPT !.data = [x \in DOMAIN a.data |-> v]]
 
 (* ------------------------------ observation ----------------------------- *)
 READPANIC == 999999      \* integer sentinels (TLC cannot compare strings with integers)
